@@ -10,6 +10,7 @@ import GM.Model.Ids
 import GM.Proof.Ids
 import GM.Props.C15E2E
 import GM.Props.ConvertE2EAll
+import GM.Props.C15Total
 
 namespace GM.Props.C15
 open GM GM.Ids
@@ -122,5 +123,24 @@ theorem c15_end_to_end_of_block_phase : type_of% @GM.Props.ConvertE2EAll.c15_end
 /-- (re-export of `GM.Props.ConvertE2EAll.c15_end_to_end_or_value_panic`) **`c15_end_to_end_or_value_panic`**: for EVERY source either all of C15's conclusions hold of the HTML `convertH true` answers,
     or the block phase hit the `Segment.Value` panic of `generateAutoHeadingID` -/
 theorem c15_end_to_end_or_value_panic : type_of% @GM.Props.ConvertE2EAll.c15_end_to_end_or_value_panic := @GM.Props.ConvertE2EAll.c15_end_to_end_or_value_panic
+
+/-- (re-export of `GM.Props.C15Total.converth_total`) **`converth_total`** — C01 for the AutoHeadingID configuration: for EVERY byte string, Unicode-class assignment and
+    renderer option set, `convertH true` (the model of `goldmark.New(WithParserOptions(WithAutoHeadingID()), …).Convert`, tied
+    byte for byte by component `converth`) answers HTML: no Go run-time panic, no fuel exhaustion, no monitor, no guard. -/
+theorem e2e_converth_total : type_of% @GM.Props.C15Total.converth_total := @GM.Props.C15Total.converth_total
+
+/-- (re-export of `GM.Props.C15Total.c15_end_to_end_total`) **`c15_end_to_end_total`** — C15 END TO END, TOTAL: for EVERY byte string `convertH true` answers HTML `html`; `html` is the
+    rendering of the parsed tree; for the Heading nodes the renderer visits, in document order, the attribute lists are exactly
+    `id = v`, pairwise DISTINCT; every `v` is NON-EMPTY and consists of `a-z 0-9 -`; the start tag `<hN id="v">` is a contiguous
+    part of `html`. -/
+theorem e2e_c15_end_to_end_total : type_of% @GM.Props.C15Total.c15_end_to_end_total := @GM.Props.C15Total.c15_end_to_end_total
+
+/-- (re-export of `GM.Props.C15Total.monitored_block_phase_total`) **the monitored block driver is total for every byte string** (and every line segment of the store it returns lies inside
+    the source): the heading's last line is inside the source at the moment `Close` runs -/
+theorem e2e_monitored_block_phase_total : type_of% @GM.Props.C15Total.monitored_block_phase_total := @GM.Props.C15Total.monitored_block_phase_total
+
+/-- (re-export of `GM.Props.C15Total.block_phase_h_total`) **the block phase with AutoHeadingID is total**: the strict form of `converth_block_phase_projects` — it returns exactly
+    when (always) `convertCore`'s block phase returns, in the same store -/
+theorem e2e_block_phase_h_total : type_of% @GM.Props.C15Total.block_phase_h_total := @GM.Props.C15Total.block_phase_h_total
 
 end GM.Props.C15
